@@ -17,7 +17,7 @@ open List
 def W.calls (w : W) : List (Nat × Option String) := w.execs.reverse.map fun e => (e.slot, e.arg)
 
 theorem runThreads_calls (cfg : Cfg) (o : Opts) (slot : Nat) (arg : Option String) (br il : Bool) :
-    ∀ (ts : List Nat) (p : P) (ex : List Exec),
+    ∀ (ts : List Nat) (p : Paint.P) (ex : List Exec),
       ((runThreads cfg o slot arg br il ts p ex).2.reverse.map fun e => (e.slot, e.arg)) =
         (ex.reverse.map fun e => (e.slot, e.arg)) ++ replicate ts.length (slot, arg)
   | [], p, ex => by simp [runThreads]
